@@ -29,6 +29,7 @@ m('C01', B, '\t\tfor k, v := range gb.affinityMap {\n\t\t\tif v == oldSc {\n\t\t
 m('C01', P, 'a, err := getAffinityKeysFromMessage(locator, gcpCtx.reqMsg)', 'a, err := getAffinityKeysFromMessage(locator, gcpCtx.replyMsg)', 'request key taken from the reply')
 m('C01', B, '\t\tfor k, v := range gb.affinityMap {\n\t\t\tif v == oldSc {\n\t\t\t\tgb.affinityMap[k] = sc\n\t\t\t}\n\t\t}\n', '\t\tfor k, v := range gb.affinityMap {\n\t\t\tif v != oldSc {\n\t\t\t\tcontinue\n\t\t\t}\n\t\t\tgb.affinityMap[k] = sc\n\t\t}\n', 're-key loop written with continue', 'silent')
 
+m('C01', P, '\t\tif hasGCPCtx && (cmd == grpc_gcp.AffinityConfig_BOUND || cmd == grpc_gcp.AffinityConfig_UNBIND) {', '\t\tif hasGCPCtx && len(p.scRefs) > 1 && (cmd == grpc_gcp.AffinityConfig_BOUND || cmd == grpc_gcp.AffinityConfig_UNBIND) {', 'request key extracted only when a further, unrelated condition holds')
 # ---------------- C02
 m('C02', P, '\t\tscRef.streamsDecr()\n\t\tp.detectUnresponsive(ctx, scRef, callStarted, info.Err)\n\t\tif info.Err != nil {\n\t\t\treturn\n\t\t}\n', '\t\tp.detectUnresponsive(ctx, scRef, callStarted, info.Err)\n\t\tif info.Err != nil {\n\t\t\treturn\n\t\t}\n\t\tscRef.streamsDecr()\n', 'decrement skipped on failed calls')
 m('C02', P, '\t\tscRef.streamsIncr()\n\t\treturn scRef, nil\n\t}\n', '\t\treturn scRef, nil\n\t}\n', 'round-robin placement not counted')
@@ -137,6 +138,9 @@ m('C13', M, 'if exists && c.status == recovering && (topA == nil || topA.priorit
 m('C13', M, '\tif !exists {\n\t\tme.current = top.id\n\t}', '\tif !exists || c.status == unavailable {\n\t\tme.current = top.id\n\t}', 'fallback to first although current exists')
 m('C13', M, '\t\tme.current = e.id\n\t})', '\t\tme.current = me.future\n\t})', 'stores the looked-up key instead of the id', 'silent')
 
+m('C13', M, '\tif topA != nil {\n\t\tme.switchFromTo(c, topA)\n\t\treturn\n\t}', '\tif topA != nil && me.switchingDelay == 0 {\n\t\tme.switchFromTo(c, topA)\n\t\treturn\n\t}', 'switch to the top available endpoint only under a further, unrelated condition')
+m('C13', M, '\tif !exists {\n\t\tme.current = top.id\n\t}', '\tif !exists && me.switchingDelay == 0 {\n\t\tme.current = top.id\n\t}', 'gone current replaced only under a further, unrelated condition')
+m('C13', M, '\tif topA != nil {\n\t\tme.switchFromTo(c, topA)\n\t\treturn\n\t}', '\tif topA != nil {\n\t\tif me.switchingDelay == 0 {\n\t\t\tme.switchFromTo(c, topA)\n\t\t}\n\t\treturn\n\t}', 'the switch is skipped under an unrelated condition (and the function returns)')
 # ---------------- C14
 m('C14', M, '\tif ee.status != available {\n\t\treturn\n\t}\n', '\tif ee.status == unavailable {\n\t\treturn\n\t}\n', 'repeated unavailable reports extend the recovery window')
 m('C14', M, 'if me.switchingDelay == 0 || f == nil || f.status == unavailable {', 'if me.switchingDelay == 0 || f == nil || f.status != available {', 'immediate switch away from a recovering endpoint')
@@ -183,6 +187,7 @@ m('C18', PI, '\t\t\treturn 0, fmt.Errorf("failed to parse gfe latency: %v", err)
 m('C18', PI, '\t\tdurationText := strings.TrimPrefix(entry, gfeT4T7prefix)', '\t\tdurationText := strings.TrimPrefix(serverTiming[0], gfeT4T7prefix)', 'the number parsed is not the tested entry\'s')
 m('C18', PM, '\tif _, err := proberlib.ParseProbeType(*probeType); err != nil {', '\tif _, err := proberlib.ParseProbeType(*probeType); err != nil && *numRows > 1 {', 'probe type error reported only sometimes')
 m('C18', PM, '\tif matched := instanceDBRegex.MatchString(*database_name); !matched {', '\tif matched := instanceDBRegex.MatchString(*database_name); !matched && *numRows > 1 {', 'failed database-name match reported only sometimes')
+m('C18', PR, '\tcase "dml":\n\t\treturn DMLProbe{}, nil', '\tcase "dml":\n\t\tif rand.Intn(2) == 0 {\n\t\t\treturn nil, fmt.Errorf("busy")\n\t\t}\n\t\treturn DMLProbe{}, nil', 'a valid probe type is rejected under an unrelated condition')
 m('C18', PR, '\t\treturn NoopProbe{}, fmt.Errorf("probe_type %q is not a valid probe type", t)', '\t\treturn NoopProbe{}, nil', 'unknown probe types parse as noop without error')
 m('C18', PR, '\t\tif _, err := h.Write(payload); err != nil {\n\t\t\treturn nil, nil, err\n\t\t}', '\t\tif _, err := h.Write(payload); err != nil {\n\t\t\treturn nil, nil, err\n\t\t}\n\t\th.Write(payload)', 'payload written into the hash twice')
 
